@@ -1266,7 +1266,7 @@ def goa_histories(prs, table, rng):
 
 
 # ============================================================================== the check
-def foreign_reads(ck, rng, quick, containers):
+def foreign_reads(ck, rng, quick, containers, new_creating=()):
     stats = {"properties": 0, "pre_states": 0, "reads": 0, "getter_raised": 0, "unavailable": None}
     try:
         import checks.c09 as c9
@@ -1317,6 +1317,73 @@ def foreign_reads(ck, rng, quick, containers):
                                      p.cls, p.attr, desc, str(tree_delta(before, after))[:400]),
                                  {"entry_point": "%s.%s (getter)" % (p.cls, p.attr), "input": {"kind": k.name, "pre_state": [list(e) for e in edits], "what": desc},
                                   "impl_outcome": str(tree_delta(before, after))[:800]})
+    # ---- the same for EVERY statically allowed accessor of the object (gateways that hand back formatting proxies
+    #      included), from pre-states that vary the object's CONTEXT: the other children its parent element may have
+    #      (a:endParaRPr with a language beside a run, ...) and their attributes
+    import copy
+    table = _load_table()
+    stats.update(context_pre_states=0, context_reads=0)
+    for k in kinds:
+        if k.anchor is None:
+            continue
+        try:
+            prs0 = k.build()
+            obj0 = k.nav(prs0)
+            anc = k.anchor(obj0)
+            parent = anc.getparent()
+            if parent is None:
+                continue
+            pq = xsd.type_of(parent)
+            tags = [t for t in (xsd.kids(pq) if pq else {}) if ":" in t and t != c9.ptag(anc.tag)]
+            k2 = copy.copy(k)
+            k2.anchor = (lambda o, a=k.anchor: a(o).getparent())
+            k2.nv = False
+            k2.props = []
+            eds = c9.foreign_edits(xsd, k2, None, [], tags, rng, quick)
+            core = [(d, [e]) for pr, d, e in eds if pr in (2, 3)]
+            attrs = [(d, [e]) for pr, d, e in eds if pr in (0, 4)]
+            sibs = [(d, [e]) for pr, d, e in eds if pr == 5]
+            plan = (core if len(core) <= 10 or not quick else rng.sample(core, 10)) \
+                + rng.sample(attrs, min(len(attrs), 40 if quick else 200)) + rng.sample(sibs, min(len(sibs), 4 if quick else 20))
+            rows = [r for r in (table.for_class(type(obj0)) or []) if r["kind"] in ("property", "lazyproperty")
+                    and (table.allowed_static(r) or r["sig"] in new_creating)]
+        except Exception:  # noqa
+            continue
+        for desc, edits in plan:
+            try:
+                prs, ok = c9.prepared(xsd, k2, edits)
+                if not ok:
+                    continue
+                obj = k.nav(prs)
+                part = c9.part_of(k, prs, obj)
+                if part is None:
+                    continue
+            except Exception:  # noqa
+                continue
+            stats["context_pre_states"] += 1
+            # the object as another producer leaves it: without the empty containers python-pptx's own accessors created
+            # while the object was built (an a:r without a:rPr, ...)
+            try:
+                for ch in list(k.anchor(obj)):
+                    if isinstance(ch.tag, str) and c9.ptag(ch.tag) in containers and not ch.attrib and len(ch) == 0 and not (ch.text or "").strip():
+                        ch.getparent().remove(ch)
+            except Exception:  # noqa
+                pass
+            for r in rows:
+                before = py_strip(pytree(part._element), containers)
+                try:
+                    getattr(obj, r["name"])
+                except Exception:  # noqa
+                    continue
+                stats["context_reads"] += 1
+                after = py_strip(pytree(part._element), containers)
+                if before != after:
+                    ck.violation("foreign-read:%s.%s" % (r["cls"], r["name"]),
+                                 "reading %s.%s changed the document (more than empty containers) when the object's surroundings are in a "
+                                 "state only other producers write (%s): %s" % (r["cls"], r["name"], desc, str(tree_delta(before, after))[:400]),
+                                 {"entry_point": "%s.%s (accessor)" % (r["cls"], r["name"]), "input": {"kind": k.name, "context": [list(e) for e in edits], "what": desc},
+                                  "impl_outcome": str(tree_delta(before, after))[:800]})
+                    break
     return stats
 
 
@@ -1566,7 +1633,23 @@ def run(ck, tier, rng):
     #      property of the C09 catalogue kinds (the plain-data accessors that have a setter) the object is put into the
     #      schema-derived pre-states of checks/c09.py (every enumeration value / optional sibling / choice member of what
     #      the property touches, validated) and the property is READ: the part must not change except by empty containers.
-    fstats = foreign_reads(ck, rng, tier == "quick", set(meta["containers"]))
+    # accessors the static table NOW predicts to create content although they did not on the tree the baseline
+    # (tx/c12_creates_known.json) was recorded on: a gateway that only added an empty container before must not start to
+    # write attributes or children.  They are read from the foreign contexts below (search for a failing input); if none of
+    # those shows the document changing, the changed prediction itself is reported.
+    try:
+        creates_known = set(json.load(open(os.path.join(VERIF, "tx", "c12_creates_known.json"))))
+    except Exception:  # noqa
+        creates_known = None
+    new_creating = sorted({r["sig"] for r in meta["rows"] if r["level"] == "Creates" and not r["unres"]} - creates_known) if creates_known is not None else []
+    fstats = foreign_reads(ck, rng, tier == "quick", set(meta["containers"]), set(new_creating))
+    for sig in new_creating:
+        if not any(v["sig"] == "foreign-read:" + sig for v in ck.violations):
+            ck.violation("new-creating-accessor:" + sig,
+                         "the effect table regenerated from the source predicts that reading %s creates content (more than an empty container); it "
+                         "did not on the tree tx/c12_creates_known.json was recorded on, and it is not one of the accessors documented as "
+                         "creating content; no deck or foreign context of this run showed the document changing" % sig,
+                         {"theorem_or_correspondence": "tie tx_c12: accessors predicted Creates = tx/c12_creates_known.json", "accessor": sig}, concrete=False)
     for f in list(reported)[:3]:
         ck.sample({"finding": f})
     for res in results[:4]:
